@@ -8,8 +8,13 @@ MCBytePool == { <<"hi">>, <<"x00">> }
 
 PairSchemas == {n \in SchemaNames : SchemaOf[n].k = "record" /\ Len(SchemaOf[n].fields) >= 2}
 TopType(n) == [k |-> "ref", n |-> n]
-\* all pairs of fields for records of up to 8 fields, neighbouring fields for the larger ones
-PairsOf(n) == LET m == Len(SchemaOf[n].fields) IN {p \in (1..m) \X (1..m) : p[1] < p[2] /\ (m <= 8 \/ p[2] = p[1] + 1)}
+\* all pairs of fields for records of up to 8 fields, neighbouring fields for the larger ones -- as long as the two fields'
+\* variation sets multiply to at most MaxPairProduct values (containers of containers have hundreds of variations each; their
+\* single-position variations are covered by the quick tier, their products would take the better part of an hour)
+MaxPairProduct == 2500
+NVals(n, i) == Cardinality(Vals(SchemaOf[n].fields[i].ty))
+PairsOf(n) == LET m == Len(SchemaOf[n].fields) IN
+  {p \in (1..m) \X (1..m) : p[1] < p[2] /\ (m <= 8 \/ p[2] = p[1] + 1) /\ NVals(n, p[1]) * NVals(n, p[2]) <= MaxPairProduct}
 
 VARIABLES sname, part, val
 Init == sname \in PairSchemas /\ part \in PairsOf(sname) /\ val = [t |-> "none"]
